@@ -963,8 +963,20 @@ class BaseInterpreter(Generic[TContext, TEvent]):
                 interpreter._actor_sources[actor_id] = record["src"]
 
         # 🌐 Re-register restored actors under their original systemIds.
+        #
+        # 🌳 The registry is shared by the whole hierarchy, so an entry may
+        #    name an actor any number of levels down. Looking only among this
+        #    interpreter's direct children dropped the systemId of every
+        #    deeper actor on restore: `system.get()` no longer found it and a
+        #    second snapshot differed from the one just restored.
+        restored_by_id: Dict[str, Any] = {}
+        pending = list(interpreter._actors.values())
+        while pending:
+            actor = pending.pop()
+            restored_by_id[actor.id] = actor
+            pending.extend(actor._actors.values())
         for system_id, actor_id in (snapshot.get("system") or {}).items():
-            restored_actor = interpreter._actors.get(actor_id)
+            restored_actor = restored_by_id.get(actor_id)
             if restored_actor is not None:
                 interpreter._system[system_id] = restored_actor
 
